@@ -67,3 +67,40 @@ func (c *MapCache) HitCount() int {
 	defer c.mu.Unlock()
 	return c.Hits
 }
+
+// CountingCache wraps any NodeCache and counts traffic (atomically; the
+// wrapped cache provides its own synchronisation).
+type CountingCache struct {
+	Inner interface {
+		Add(key, value interface{})
+		Contains(key interface{}) bool
+		Get(key interface{}) (interface{}, bool)
+	}
+	mu      sync.Mutex
+	hits    int
+	adds    int
+	lookups int
+}
+
+func (c *CountingCache) Add(key, value interface{}) {
+	c.mu.Lock()
+	c.adds++
+	c.mu.Unlock()
+	c.Inner.Add(key, value)
+}
+func (c *CountingCache) Contains(key interface{}) bool { return c.Inner.Contains(key) }
+func (c *CountingCache) Get(key interface{}) (interface{}, bool) {
+	v, ok := c.Inner.Get(key)
+	c.mu.Lock()
+	c.lookups++
+	if ok {
+		c.hits++
+	}
+	c.mu.Unlock()
+	return v, ok
+}
+func (c *CountingCache) Stats() (hits, adds, lookups int) {
+	c.mu.Lock()
+	defer c.mu.Unlock()
+	return c.hits, c.adds, c.lookups
+}
